@@ -78,6 +78,19 @@ fn text_in_order(members: &[(String, Value)], order: &[usize]) -> String {
     format!("{{{}}}", parts.join(","))
 }
 
+/// Like `text_in_order`, with the first character of member `esc`'s name written as `\uXXXX`.
+fn text_in_order_escaped(members: &[(String, Value)], order: &[usize], esc: usize) -> String {
+    let parts: Vec<String> = order
+        .iter()
+        .map(|i| {
+            let name = &members[*i].0;
+            let key = if *i == esc { format!("\"\\u{:04x}{}\"", name.chars().next().unwrap() as u32, &name[1..]) } else { serde_json::to_string(name).unwrap() };
+            format!("{}:{}", key, members[*i].1)
+        })
+        .collect();
+    format!("{{{}}}", parts.join(","))
+}
+
 /// Encode through zlink's own serializer (the public send path) and return the frame as a Value.
 fn wire_encode<M: Serialize + std::fmt::Debug>(c: &Call<M>) -> Result<(Vec<u8>, Value), String> {
     let wire = Wire::new(0, None);
@@ -167,8 +180,17 @@ fn call_decode_cases(sink: &mut Sink<'_>, which: usize) {
                 members.push(("x-unknown".into(), json!({"deep": [true]})));
             }
             let want = (vals[0] == 1, vals[1] == 1, vals[2] == 1);
-            for order in permutations(members.len()) {
-                let text = text_in_order(&members, &order);
+            // every member order; and, in source order and reversed, every member's name spelled with
+            // a JSON escape (`"\u006fneway"` is the member `oneway`)
+            let mut texts: Vec<String> = permutations(members.len()).iter().map(|o| text_in_order(&members, o)).collect();
+            let ident: Vec<usize> = (0..members.len()).collect();
+            let rev: Vec<usize> = ident.iter().rev().copied().collect();
+            for order in [&ident, &rev] {
+                for esc in 0..members.len() {
+                    texts.push(text_in_order_escaped(&members, order, esc));
+                }
+            }
+            for text in texts {
                 let case = json!({"group": "call-decode", "method_type": tname, "frame": text});
                 let flags = |c: (bool, bool, bool)| c == want;
                 let r: Result<u64, (&str, String)> = match which {
@@ -345,8 +367,13 @@ where
         variants.push(("field-less variant, parameters {}".into(), b));
     }
     for (what, members) in variants {
-        for order in permutations(members.len()) {
-            let text: &'a str = Box::leak(text_in_order(&members, &order).into_boxed_str());
+        let mut texts: Vec<String> = permutations(members.len()).iter().map(|o| text_in_order(&members, o)).collect();
+        let ident: Vec<usize> = (0..members.len()).collect();
+        for esc in 0..members.len() {
+            texts.push(text_in_order_escaped(&members, &ident, esc));
+        }
+        for text in texts {
+            let text: &'a str = Box::leak(text.into_boxed_str());
             match serde_json::from_str::<E>(text) {
                 Ok(d) if d == *e => sink.pass(H64::new().s(tname).s(text).get()),
                 Ok(d) => sink.fail("envelope:error-decoded-wrongly", format!("`{text}` decoded as {d:?}, expected {e:?}"), case(&what)),
@@ -449,8 +476,12 @@ fn reply_cases(sink: &mut Sink<'_>) {
             }
             let members: Vec<(String, Value)> = expect.as_object().unwrap().iter().map(|(k, v)| (k.clone(), v.clone())).chain(std::iter::once(("other".to_string(), json!("ignored")))).collect();
             for n in [members.len() - 1, members.len()] {
-                for order in permutations(n) {
-                    let text = text_in_order(&members[..n], &order);
+                let mut texts: Vec<String> = permutations(n).iter().map(|o| text_in_order(&members[..n], o)).collect();
+                let ident: Vec<usize> = (0..n).collect();
+                for esc in 0..n {
+                    texts.push(text_in_order_escaped(&members[..n], &ident, esc));
+                }
+                for text in texts {
                     match serde_json::from_str::<Reply<RP>>(&text) {
                         Ok(d) if d.parameters() == r.parameters() && d.continues() == cont => sink.pass(H64::new().s(&text).get()),
                         Ok(d) => sink.fail("envelope:reply-decoded-wrongly", format!("`{text}` decoded as {d:?}"), case.clone()),
